@@ -104,6 +104,9 @@ class FnTranslator:
             elif kind == 'slice2':
                 env[name] = V([V([S(f'{name}_0_start'), S(f'{name}_0_stop')]), V([S(f'{name}_1_start'), S(f'{name}_1_stop')])])
                 names += [f'{name}_0_start', f'{name}_0_stop', f'{name}_1_start', f'{name}_1_stop']
+            elif kind == 'bool01':
+                # a Python truth value that enters as an Int parameter (0 = False, anything else = True)
+                env[name] = B(f'(decide ({name} ≠ (0 : Int)))'); names.append(name)
             elif kind == 'none':
                 env[name] = NoneV(); self.specialised.append(f'{name}=None')
             elif isinstance(kind, tuple) and kind[0] == 'attr':
